@@ -335,6 +335,21 @@ def bursty_stream(rng, n, d, w):
     return out[:n]
 
 
+def byte_stream(rng, n, d, w):
+    """byte-valued points (0..255) around high levels, with bursts towards the other end of the range"""
+    out = []
+    home = [rng.randint(150, 235) for _ in range(d)]
+    while len(out) < n:
+        for _ in range(rng.randint(w, 3 * w)):
+            out.append([min(255, max(0, h + rng.randint(-20, 20))) for h in home])
+        far = [rng.randint(0, 90) if rng.random() < 0.7 else rng.randint(200, 255) for _ in home]
+        for _ in range(rng.randint(1, max(2, w))):
+            out.append([min(255, max(0, f + rng.randint(-10, 10))) for f in far])
+        if rng.random() < 0.3:
+            home = [rng.randint(100, 235) for _ in range(d)]
+    return out[:n]
+
+
 def stream_params(rng):
     w = rng.choice([5, 8, 12, 20])
     return {"window_size": w, "persistence": rng.choice([0.0, 0.05, 0.2, 0.5, 1.0]), "alpha": rng.choice([0.01, 0.05, 0.2, 0.3, 0.5]),
